@@ -1006,3 +1006,19 @@ TABLE["C05"] += [
     B("accessor-prefix-from-a-different-class-spelling", {"I6"},
       (MW, "                if method_name.startswith(class_name + \"_get_\"):", "                if method_name.startswith(self._format_class_name(collector_func[1]) + \"_get_\"):")),
 ]
+TABLE["C11"] += [
+    B("reference-return-adopted-into-a-handle", {"H6"},
+      (MW, "            if ctype.is_shared_ptr or ctype.is_ptr:\n                shared_obj = '{obj},\"{method_name_sep}\"'.format(\n                    obj=obj, method_name_sep=sep_method_name('.'))\n",
+       "            if ctype.is_shared_ptr or ctype.is_ptr:\n                shared_obj = '{obj},\"{method_name_sep}\"'.format(\n                    obj=obj, method_name_sep=sep_method_name('.'))\n"
+       "            elif ctype.is_ref:\n                shared_obj = 'std::shared_ptr<{t}>(&{obj}),\"{method_name_sep}\"'.format(\n                    t=sep_method_name(), obj=obj, method_name_sep=sep_method_name('.'))\n")),
+    B("pair-member-adopted-by-address", {"H6"},
+      (MW, "                shared_obj = 'std::make_shared<{name}>({shared_obj})' \\\n", "                shared_obj = 'std::shared_ptr<{name}>(&{shared_obj})' \\\n")),
+    B("enum-names-cached-per-namespace-simple-name", {"H7"},
+      (MX, "            global_enums = [\n                member.name for member in class_.parent.content\n                if isinstance(member, parser.Enum)\n            ]\n            return arg_type.typename.name in global_enums",
+       "            return arg_type.typename.name in self._namespace_enums(class_.parent)"),
+      (MX, "    def is_global_enum(self,", "    def _namespace_enums(self, namespace):\n        if not hasattr(self, '_enum_cache'):\n            self._enum_cache = {}\n        if namespace.name not in self._enum_cache:\n            self._enum_cache[namespace.name] = [m.name for m in namespace.content if isinstance(m, parser.Enum)]\n        return self._enum_cache[namespace.name]\n\n    def is_global_enum(self,")),
+    N("enum-names-cached-per-namespace-object", 
+      (MX, "            global_enums = [\n                member.name for member in class_.parent.content\n                if isinstance(member, parser.Enum)\n            ]\n            return arg_type.typename.name in global_enums",
+       "            return arg_type.typename.name in self._namespace_enums(class_.parent)"),
+      (MX, "    def is_global_enum(self,", "    def _namespace_enums(self, namespace):\n        if not hasattr(self, '_enum_cache'):\n            self._enum_cache = {}\n        if id(namespace) not in self._enum_cache:\n            self._enum_cache[id(namespace)] = [m.name for m in namespace.content if isinstance(m, parser.Enum)]\n        return self._enum_cache[id(namespace)]\n\n    def is_global_enum(self,")),
+]
